@@ -449,10 +449,11 @@ Proof.
   { destruct (is_digit ch).
     - destruct (decimal cur) as [[n q]|e q| | |]; cbn [pbind]; auto.
       destruct (hd_is_not q close && hd_is_not q 45); [exact I|].
-      assert (NK : num_ok (if mco && negb (n =? 0) then match ct_name tb (itoa n) with Some g => g | None => -1 end
+      assert (NK : num_ok (if mco && negb (n =? 0) then (if ch =? 48 then -1 else match ct_name tb (itoa n) with Some g => g | None => -1 end)
                            else if ct_slot tb n then n else -1)).
       { destruct (mco && negb (n =? 0)).
-        - destruct (ct_name tb (itoa n)) as [g|] eqn:En; [right; eapply Hname; exact En | left; reflexivity].
+        - destruct (ch =? 48); [left; reflexivity|].
+          destruct (ct_name tb (itoa n)) as [g|] eqn:En; [right; eapply Hname; exact En | left; reflexivity].
         - destruct (ct_slot tb n) eqn:Es; [right; apply Hslot; exact Es | left; reflexivity]. }
       match goal with |- match (if ?b then _ else _) with _ => _ end => destruct b end; [exact I | exact NK].
     - destruct (is_word_char ch).
